@@ -13,6 +13,8 @@
 (*   c5 instance.Lock()                                 -> hook send.locked*)
 (*   c6 newRequestMessage: nextSequenceNumber()         -> hook chunk.write*)
 (*   c8 write chunk j; number chunk j+1 (-> chunk.write) or unlock, Done   *)
+(*      or: write chunk j, then the context has ended: the loop returns    *)
+(*      the error before chunk j+1 is numbered (unlock, Done) -> "abort"   *)
 (* renewer   renew -> open -> handleOpenSecureChannelResponse              *)
 (*   r1 reqLocker.lock()                                -> renew.locked    *)
 (*   r2 pendingReq.Wait()                               -> renew.waited    *)
@@ -29,6 +31,8 @@
 (*   Dev_GateGap          counted only at c4 (after the instance was read) *)
 (*   Dev_FailedRenewSeq   the old instance's counter is not advanced when  *)
 (*                        the renewal fails after its OPN was written      *)
+(*                        (repaired in 61b5747; kept as a demo, FALSE in   *)
+(*                        the as-is generation configurations)             *)
 (***************************************************************************)
 EXTENDS Naturals, Sequences, FiniteSets, TLC, Json
 
@@ -37,7 +41,9 @@ CONSTANTS Senders,        \* sender goroutines, e.g. {"p1", "p2"}
           Seq0, MaxSeq,   \* first counter value; the counter wraps MaxSeq -> 1 (MaxUint32-1024 in the code)
           RenewMayFail,   \* the OPN response may fail to arrive in time
           Gen,            \* TRUE: record the schedule in hist and print terminal behaviours
-          Dev_GateGap, Dev_FailedRenewSeq
+          MayAbort,       \* a sender's context may end in the middle of a multi-chunk message
+          Dev_GateGap, Dev_FailedRenewSeq,
+          Dev_ResetSeqOnAbort   \* (demo) an aborted send hands "its" sequence numbers back although chunks were written
 
 Procs == Senders \cup {"renew"}
 Insts == {1, 2}
@@ -49,10 +55,11 @@ VARIABLES gate,      \* reqLocker.bLock
           seq,       \* [inst -> last sequence number used]
           active,    \* instance used for new requests
           pc, myInst, left, cur,
+          first,     \* [sender -> counter of its instance before its message was numbered]
           wire,      \* chunks written by the client: [inst, seq, who, type, last]
           hist
-vars == <<gate, pending, instLock, seq, active, pc, myInst, left, cur, wire, hist>>
-view == <<gate, pending, instLock, seq, active, pc, myInst, left, cur, wire>>
+vars == <<gate, pending, instLock, seq, active, pc, myInst, left, cur, first, wire, hist>>
+view == <<gate, pending, instLock, seq, active, pc, myInst, left, cur, first, wire>>
 
 Init == /\ gate = FALSE /\ pending = 0
         /\ instLock = [i \in Insts |-> "none"]
@@ -61,7 +68,7 @@ Init == /\ gate = FALSE /\ pending = 0
         /\ pc = [p \in Procs |-> IF p = "renew" THEN "r1" ELSE "c1"]
         /\ myInst = [p \in Procs |-> 0]
         /\ left = [p \in Procs |-> 0]
-        /\ cur = [p \in Procs |-> 0]
+        /\ cur = [p \in Procs |-> 0] /\ first = [p \in Procs |-> 0]
         /\ wire = <<>> /\ hist = <<>>
 
 Goto(p, l) == pc' = [pc EXCEPT ![p] = l]
@@ -73,24 +80,25 @@ R == "renew"
 C1(p) == /\ pc[p] = "c1" /\ gate = FALSE
          /\ IF Dev_GateGap THEN UNCHANGED pending ELSE pending' = pending + 1
          /\ Goto(p, "c2") /\ Rec(p, "send.gate")
-         /\ UNCHANGED <<gate, instLock, seq, active, myInst, left, cur, wire>>
+         /\ UNCHANGED <<first, gate, instLock, seq, active, myInst, left, cur, wire>>
 C2(p) == /\ pc[p] = "c2"
          /\ pc[R] # "r10"          \* instancesMu is held from the install to the return of the response handler
          /\ myInst' = [myInst EXCEPT ![p] = active]
          /\ Goto(p, "c4") /\ Rec(p, "send.enter")
-         /\ UNCHANGED <<gate, pending, instLock, seq, active, left, cur, wire>>
+         /\ UNCHANGED <<first, gate, pending, instLock, seq, active, left, cur, wire>>
 C4(p) == /\ pc[p] = "c4"
          /\ IF Dev_GateGap THEN pending' = pending + 1 ELSE UNCHANGED pending
          /\ Goto(p, "c5") /\ Rec(p, "send.add")
-         /\ UNCHANGED <<gate, instLock, seq, active, myInst, left, cur, wire>>
+         /\ UNCHANGED <<first, gate, instLock, seq, active, myInst, left, cur, wire>>
 C5(p) == /\ pc[p] = "c5" /\ instLock[myInst[p]] = "none"
          /\ instLock' = [instLock EXCEPT ![myInst[p]] = p]
          /\ Goto(p, "c6") /\ Rec(p, "send.locked")
-         /\ UNCHANGED <<gate, pending, seq, active, myInst, left, cur, wire>>
+         /\ UNCHANGED <<first, gate, pending, seq, active, myInst, left, cur, wire>>
 C6(p) == /\ pc[p] = "c6"
          /\ \E n \in 1..MaxChunks : left' = [left EXCEPT ![p] = n]
          /\ seq' = [seq EXCEPT ![myInst[p]] = NextSeq(@)]
          /\ cur' = [cur EXCEPT ![p] = NextSeq(seq[myInst[p]])]
+         /\ first' = [first EXCEPT ![p] = seq[myInst[p]]]
          /\ Goto(p, "c8") /\ Rec(p, "chunk.write")
          /\ UNCHANGED <<gate, pending, instLock, active, myInst, wire>>
 C8(p) == /\ pc[p] = "c8" /\ left[p] > 0
@@ -105,37 +113,51 @@ C8(p) == /\ pc[p] = "c8" /\ left[p] > 0
                  /\ cur' = [cur EXCEPT ![p] = NextSeq(seq[myInst[p]])]
                  /\ Rec(p, "chunk.write")
                  /\ UNCHANGED <<instLock, pending, pc>>
-         /\ UNCHANGED <<gate, active, myInst>>
+         /\ UNCHANGED <<first, gate, active, myInst>>
+
+\* the context ends while the message is being written: chunk j goes out, the loop's ctx check
+\* stops before chunk j+1 is numbered; the numbers used so far stay used
+C8abort(p) ==
+         /\ MayAbort /\ pc[p] = "c8" /\ left[p] > 1
+         /\ wire' = Append(wire, [inst |-> myInst[p], seq |-> cur[p], who |-> p, type |-> "MSG", last |-> TRUE])
+         /\ left' = [left EXCEPT ![p] = 0]
+         /\ instLock' = [instLock EXCEPT ![myInst[p]] = "none"]
+         /\ pending' = pending - 1
+         /\ seq' = IF Dev_ResetSeqOnAbort
+                    THEN [seq EXCEPT ![myInst[p]] = first[p]]      \* as if nothing had been sent
+                    ELSE seq
+         /\ Goto(p, "done") /\ Rec(p, "abort")
+         /\ UNCHANGED <<gate, active, myInst, cur, first>>
 
 \* ---- renewer ----
 R1 == /\ pc[R] = "r1" /\ gate' = TRUE /\ Goto(R, "r2") /\ Rec(R, "renew.locked")
-      /\ UNCHANGED <<pending, instLock, seq, active, myInst, left, cur, wire>>
+      /\ UNCHANGED <<first, pending, instLock, seq, active, myInst, left, cur, wire>>
 R2 == /\ pc[R] = "r2" /\ pending = 0 /\ Goto(R, "r3") /\ Rec(R, "renew.waited")
-      /\ UNCHANGED <<gate, pending, instLock, seq, active, myInst, left, cur, wire>>
+      /\ UNCHANGED <<first, gate, pending, instLock, seq, active, myInst, left, cur, wire>>
 R3 == /\ pc[R] = "r3" /\ instLock[1] = "none"
       /\ instLock' = [instLock EXCEPT ![1] = R] /\ Goto(R, "r5") /\ Rec(R, "renew.instlocked")
-      /\ UNCHANGED <<gate, pending, seq, active, myInst, left, cur, wire>>
+      /\ UNCHANGED <<first, gate, pending, seq, active, myInst, left, cur, wire>>
 R5 == /\ pc[R] = "r5" /\ seq' = [seq EXCEPT ![2] = seq[1]] /\ Goto(R, "r6") /\ Rec(R, "open.copied")
-      /\ UNCHANGED <<gate, pending, instLock, active, myInst, left, cur, wire>>
+      /\ UNCHANGED <<first, gate, pending, instLock, active, myInst, left, cur, wire>>
 R6 == /\ pc[R] = "r6"                 \* the OPN request is numbered on the new instance
       /\ seq' = [seq EXCEPT ![2] = NextSeq(@)]
       /\ cur' = [cur EXCEPT ![R] = NextSeq(seq[2])]
       /\ Goto(R, "r7") /\ Rec(R, "chunk.write")
-      /\ UNCHANGED <<gate, pending, instLock, active, myInst, left, wire>>
+      /\ UNCHANGED <<first, gate, pending, instLock, active, myInst, left, wire>>
 R7ok == /\ pc[R] = "r7"               \* OPN written, response handled: the new instance becomes active
         /\ wire' = Append(wire, [inst |-> 2, seq |-> cur[R], who |-> R, type |-> "OPN", last |-> TRUE])
         /\ active' = 2 /\ Goto(R, "r10") /\ Rec(R, "open.installed")
-        /\ UNCHANGED <<gate, pending, instLock, seq, myInst, left, cur>>
+        /\ UNCHANGED <<first, gate, pending, instLock, seq, myInst, left, cur>>
 R7fail == /\ pc[R] = "r7" /\ RenewMayFail   \* OPN written, no response in time: the old instance stays active
           /\ wire' = Append(wire, [inst |-> 2, seq |-> cur[R], who |-> R, type |-> "OPN", last |-> TRUE])
           /\ seq' = IF Dev_FailedRenewSeq THEN seq ELSE [seq EXCEPT ![1] = seq[2]]
           /\ Goto(R, "r10") /\ Rec(R, "wait.timeout")
-          /\ UNCHANGED <<gate, pending, instLock, active, myInst, left, cur>>
+          /\ UNCHANGED <<first, gate, pending, instLock, active, myInst, left, cur>>
 R10 == /\ pc[R] = "r10" /\ instLock' = [instLock EXCEPT ![1] = "none"] /\ gate' = FALSE
        /\ Goto(R, "done") /\ Rec(R, "done")
-       /\ UNCHANGED <<pending, seq, active, myInst, left, cur, wire>>
+       /\ UNCHANGED <<first, pending, seq, active, myInst, left, cur, wire>>
 
-Next == \/ \E p \in Senders : C1(p) \/ C2(p) \/ C4(p) \/ C5(p) \/ C6(p) \/ C8(p)
+Next == \/ \E p \in Senders : C1(p) \/ C2(p) \/ C4(p) \/ C5(p) \/ C6(p) \/ C8(p) \/ C8abort(p)
         \/ R1 \/ R2 \/ R3 \/ R5 \/ R6 \/ R7ok \/ R7fail \/ R10
 
 Spec == Init /\ [][Next]_vars
